@@ -46,11 +46,9 @@ Fixpoint odict_set (k : option pystr) (v : pystr) (d : list (option pystr * pyst
 (** * The whitespace policy *)
 Definition is_keep_char (c : N) : bool := (c =? 32) || (c =? 160) || (c =? 9).
 
-(** re.search of CARET [space nbsp tab]+ DOLLAR on x: without re.MULTILINE the dollar also
-    matches just before a newline that ends the string. *)
-Definition keep_regex (x : pystr) : bool :=
-  let (a, b) := span is_keep_char x in
-  nonempty a && (is_nil b || pystr_eqb b [10]).
+(** re.fullmatch of [space nbsp tab]+ on x: the whole text consists of one or more
+    spaces / non-breaking spaces / tabs *)
+Definition keep_regex (x : pystr) : bool := nonempty x && forallb is_keep_char x.
 
 (** the clean branch applied to a text that is not None *)
 Definition clean_str (collapse : bool) (x : pystr) : option pystr :=
@@ -126,6 +124,23 @@ Definition attach (pn : list (option pystr * pystr)) (c : itree) : itree :=
                               | None => add_ns (fst kv) (snd kv) c
                               end) pn c.
 
+(** dict == dict on Optional[str]-keyed maps (unordered) *)
+Definition odict_eq_unord (a b : list (option pystr * pystr)) : bool :=
+  Nat.eqb (length a) (length b) &&
+  forallb (fun kv => match oassoc (fst kv) b with
+                     | Some v => pystr_eqb (snd kv) v
+                     | None => false
+                     end) a.
+
+(** the loop after the children have been attached: a child whose nsmap equals the node's
+    as a dict (in any order) is given the node's dict object, hence the node's ORDER *)
+Definition share (pn : list (option pystr * pystr)) (c : itree) : itree :=
+  let 'IT d kids := c in
+  if odict_eq_unord (i_nsmap d) pn
+  then IT {| i_name := i_name d; i_content := i_content d; i_tail := i_tail d; i_prefix := i_prefix d;
+             i_attrs := i_attrs d; i_extras := i_extras d; i_nsmap := pn |} kids
+  else c.
+
 (** e.tag[e.tag.find(RBRACE) + 1:] *)
 Definition strip_clark (tag : pystr) : pystr :=
   match find_char 125 tag with
@@ -173,7 +188,7 @@ Fixpoint process_element (clean collapse : bool) (literals : list pystr) (e : xe
                        | Ok c =>
                            match go r with
                            | Crash c' => Crash c'
-                           | Ok cs => Ok (attach nsmap c :: cs)
+                           | Ok cs => Ok (share nsmap (attach nsmap c) :: cs)
                            end
                        end
                    end
